@@ -122,6 +122,9 @@ func runInterrupts(t *kernel.Tape, opt core.Opts, only string) *core.Outcome {
 		decorateAnyTypes(t, p, 30, false)
 	}
 	decorateInterrupts(t, p, true)
+	if only == "C05" && t.PlanBool(40) {
+		decorateInputKeys(t, p, 70) // successors of nodes with an output key may read it with an input key
+	}
 	in := M{"in": fmt.Sprintf("x%d", t.Plan(3))}
 	if t.PlanBool(40) {
 		in["np"] = (*nilTok)(nil) // a typed nil pointer in an interface-typed slot
@@ -628,7 +631,7 @@ func init() {
 	core.Register(&core.Profile{
 		ID: "C05", Engine: "graphsim", Quick: 1500, Thorough: 40000, ThoroughSeeds: 3,
 		Run:  func(t *kernel.Tape, o core.Opts) *core.Outcome { return runInterrupts(t, o, "C05") },
-		Rule: "each run draws a plan in any mode, interrupt-before/after sets at every nesting level, nodes that answer InterruptAndRerun on their first 1-2 attempts (their pre-handler rebuilds the input from state), a paradigm per call, and one schedule; the history is: call with a checkpoint id, on interrupt throw the runnable away, compile the plan again, resume through a store that keeps only bytes, until the run completes; oracle: final output, multiset of non-aborted executions and the state counter equal the uninterrupted run of the same plan (reference model), bounded number of calls; 2 in 5 histories carry a typed nil pointer in an interface-typed slot of the input; nested-graph nodes have state handlers; the history may not make more handler/ProcessState invocations than the uninterrupted run; 1 in 12 histories types some outputs as any (known finding); half of the histories keep the compiled object between the calls, and after the first interrupt a fresh run under another checkpoint id is started on it (must behave like the first call; compared in full for pure Pregel plans); the state carries a map keyed by a named string type",
+		Rule: "each run draws a plan in any mode, interrupt-before/after sets at every nesting level, nodes that answer InterruptAndRerun on their first 1-2 attempts (their pre-handler rebuilds the input from state), a paradigm per call, and one schedule; the history is: call with a checkpoint id, on interrupt throw the runnable away, compile the plan again, resume through a store that keeps only bytes, until the run completes; oracle: final output, multiset of non-aborted executions and the state counter equal the uninterrupted run of the same plan (reference model), bounded number of calls; 2 in 5 histories carry a typed nil pointer in an interface-typed slot of the input; nested-graph nodes have state handlers; the history may not make more handler/ProcessState invocations than the uninterrupted run; 1 in 12 histories types some outputs as any (known finding); half of the histories keep the compiled object between the calls, and after the first interrupt a fresh run under another checkpoint id is started on it (must behave like the first call; compared in full for pure Pregel plans); the state carries a map keyed by a named string type; successors of nodes with an output key may read it with an input key",
 		Real: append([]string{"internal/serialization (checkpoint bytes)"}, graphReal...), Stub: append([]string{"checkpoint store (in-memory byte map)"}, graphStub...),
 		Faults: []string{"interrupt before", "interrupt after", "interrupt and rerun", "nested interrupt", "repeated interrupts", "restart with only durable bytes", "paradigm change across resume"},
 	})
